@@ -101,6 +101,15 @@ pub fn cmd_advfuzz(args: &[String]) {
     let mut r = Rng::new(seed);
     let stdout = std::io::stdout();
     let mut w = std::io::BufWriter::new(stdout.lock());
+    // code points whose case-fold class (either mode) has three or more members, read from the crate's own tables
+    let mut fold_stress: Vec<u32> = Vec::new();
+    for c in 0..0x1_0000u32 {
+        if (0xD800..0xE000).contains(&c) { continue; }
+        if crate::verif::expand_code_point(c, true, true).len() >= 3 || crate::verif::expand_code_point(c, true, false).len() >= 3 {
+            fold_stress.push(c);
+        }
+    }
+    if fold_stress.is_empty() { fold_stress.push(0x3b8); }
     for id in 0..n {
         let k = 1 + r.below(8);
         let mut s = String::new();
@@ -120,6 +129,18 @@ pub fn cmd_advfuzz(args: &[String]) {
             if r.chance(1, 3) { s.push_str(*r.pick(TOKENS)); }
         }
         let mut p = cps(&s);
+        if r.chance(1, 6) {
+            // fold stress: code points with the largest case-fold classes inside literals, classes,
+            // class strings and lookbehinds
+            const OPEN: &[(&str, &str)] = &[("", ""), ("[", "]"), ("[^", "]"), ("[\\q{", "}]"), ("(?<=", ")"), ("(?<=[\\q{", "}])"), ("[\\q{a|", "}]"), ("(?<x>", ")\\k<x>"), ("[a&&", "]"), ("[\\w--", "]")];
+            let (o, c) = *r.pick(OPEN);
+            p = cps(o);
+            let m = 1 + r.below(3);
+            for _ in 0..m { p.push(*r.pick(&fold_stress)); }
+            if r.chance(1, 4) { p.extend(cps("-")); p.push(*r.pick(&fold_stress)); }
+            p.extend(cps(c));
+            if r.chance(1, 4) { p.extend(cps(*r.pick(&["*", "+", "{2}", "?", "|a"]))); }
+        }
         if r.chance(1, 10) {
             // inject a raw surrogate code point
             let at = r.below(p.len() as u64 + 1) as usize;
